@@ -4,6 +4,7 @@ CONSTANTS
   Filters = {1, 2, 3, 4}
   K = 2
   Atomic = TRUE
+  PrivateConsts = TRUE
   MaxCalls = 99
   Budget = 8
 VIEW TView
